@@ -652,6 +652,14 @@ static int fix_names (
 		{
 			sprintf (buf, "%d", i);
 		}
+		else if (pref == 'x' && (!ILLutil_strcasecmp (buf, "inf") ||
+														 !ILLutil_strcasecmp (buf, "infinity") ||
+														 !ILLutil_strcasecmp (buf, "free")))
+		{
+			/* the bounds section takes these words for what they say, wherever
+			 * they stand: a column cannot carry them into an LP file */
+			sprintf (buf, "%d", i);
+		}
 		else
 		{
 			for (j = 1; j < n; j++)
